@@ -450,7 +450,7 @@ func (c *CVMContract) execute(st engine.State, params engine.CallParams) ([]byte
 				continue
 			}
 
-			memory.Write(memOff, returnData)
+			memory.Write(memOff, returnData[outputOff.Uint64():end.Uint64()])
 			c.debugf(" => [%v, %v, %v] %X\n", memOff, outputOff, length, returnData)
 
 		case EXTCODEHASH: // 0x3F
